@@ -171,6 +171,14 @@ CM_SPEC = st.fixed_dictionaries({
     'scalar': st.booleans(),
     'cells': CELLS,
     'same_geom': W((False, 5), (True, 1)),
+    # x and y share the centre coordinate (the usual (0, 0, z) layout) while
+    # everything else stays independent per direction
+    'same_center_xy': W((False, 2), (True, 1)),
+    # y repeats every input of x and has ONE more per-direction input that
+    # x leaves at None (e.g. vector=(None, yvec, None)): two directions that
+    # look identical when only x's inputs are compared
+    'y_extends_x': W((None, 5), ('vector', 1), ('stretching', 1),
+                     ('limits', 1), ('pps', 1), ('coe', 1)),
     'fmt': st.fixed_dictionaries({
         'domain': FMT, 'distance': FMT, 'vector': FMT, 'stretching': FMT,
         'min_width_limits': FMT, 'min_width_pps': FMT,
@@ -791,6 +799,16 @@ def case_cm(spec, rec):
     fmt = dict(spec['fmt'])
     dirs = [dict(d) for d in spec['dirs']]
     same_geom = spec['same_geom']
+    if spec.get('same_center_xy') and not same_geom:
+        dirs[1]['center'] = dirs[0]['center']
+    yx = None if same_geom else spec.get('y_extends_x')
+    if yx:
+        for key in ('center', 'dommode', 'cpos', 'dl', 'dr', 'vec',
+                    'use_vec'):
+            dirs[1][key] = dirs[0][key]
+        if yx == 'vector':
+            dirs[0]['use_vec'] = False
+            dirs[1]['use_vec'] = True
     if same_geom:
         for k in (1, 2):
             for key in ('center', 'dommode', 'cpos', 'dl', 'dr', 'vec',
@@ -813,6 +831,30 @@ def case_cm(spec, rec):
                    [_limits(d, w) for d, w in zip(dirs, w0s)])
     sts = resolve('stretching', [_stretching(d) for d in dirs])
     coes = resolve('center_on_edge', [d['coe'] for d in dirs])
+    if yx:
+        # y equals x in every option, except the one x leaves at None
+        for name, lst, dflt in (('pps', pps, 4), ('limits', lims, None),
+                                ('stretching', sts, [1.05, 1.4]),
+                                ('coe', coes, False)):
+            lst = list(lst)
+            lst[1] = lst[0]
+            if yx == name:
+                lst[0] = None
+                if lst[1] is None:
+                    lst[1] = dflt if name != 'limits' else \
+                        [0.8*w0s[1], 1.3*w0s[1]]
+            if name == 'pps':
+                pps = lst
+            elif name == 'limits':
+                lims = lst
+            elif name == 'stretching':
+                sts = lst
+            else:
+                coes = lst
+        for nm in ('min_width_pps', 'min_width_limits', 'stretching',
+                   'center_on_edge'):
+            if fmt[nm] == 'same':
+                fmt[nm] = 'tuple'
     if same_geom:
         # identical geometry in all directions needs one minimum width
         lims, pps = [lims[0]]*3, [pps[0]]*3
